@@ -51,7 +51,36 @@ def rule_lzma2_writer(facts):
     tm = Terms(b)
     c = cfg(b)
     reads = [blk for blk in b.calls() if (flow.declared(blk.term) or "").endswith("Read::read")]
-    r.need("one raw read", len(reads) == 1)
+    fill_helper = None
+    if not reads:
+        # the count may come from a local helper that loops over raw reads until the buffer is full or the input ends
+        for blk in b.calls():
+            cal = blk.term.callee
+            if cal is None or not cal.target().local or len(blk.term.args) < 2:
+                continue
+            if not (pat.has_arg(tm.of_operand(blk.term.args[0]), "input") and pat.has_call(tm.of_operand(blk.term.args[1]), "vec::from_elem")):
+                continue
+            hb = facts.by_def.get(cal.target().defk)
+            if hb is None:
+                continue
+            hc = cfg(hb)
+            hreads = [x for x in hb.calls() if (flow.declared(x.term) or "").endswith("Read::read")]
+            if len(hreads) == 1 and hc.loop_blocks_of(hreads[0].idx):
+                # a zero count must leave the loop
+                hg, htm = pat.guards(hb)
+                zero_exit = False
+                for x in hb.blocks:
+                    if x.cleanup or x.term.k != "switch":
+                        continue
+                    t_ = htm.of_operand(x.term.discr)
+                    if pat.has_call(t_, "Read::read") and not (t_[0] == "discr"):
+                        for v, tgt in list(x.term.targets):
+                            if v == 0 and not any(h in hc.reachable_from(tgt) for h in hc.loop_headers()):
+                                zero_exit = True
+                if zero_exit:
+                    fill_helper = (blk, hb)
+                    reads = [blk]
+    r.need("one raw read (or one fill helper looping over raw reads)", len(reads) == 1)
     if len(reads) != 1:
         return r
     rd = reads[0]
@@ -72,7 +101,8 @@ def rule_lzma2_writer(facts):
 
     def leaf_n(n):
         def leaf(q):
-            if q[0] in ("ok", "try") and pat.has_call(q, "Read::read"):
+            if q[0] in ("ok", "try") and (pat.has_call(q, "Read::read") or
+                                           (fill_helper is not None and any(z[0] == "call" and len(z) > 3 and z[3] == rd.idx for z in _subterms(q)))):
                 return n
             if q[0] == "call" and q[1].endswith(("Vec::len", "::len")) and pat.has_call(q, "vec::from_elem"):
                 return cap
@@ -95,13 +125,17 @@ def rule_lzma2_writer(facts):
         return True
     try:
         for e in ends:
-            bad = [n for n in samples if fires(e, n) != (n == 0)]
+            if fill_helper is not None:
+                # a fill helper returns less than the capacity only at the end of the input
+                bad = [n for n in samples if (n == 0 and not fires(e, n)) or (n == cap and fires(e, n))]
+            else:
+                bad = [n for n in samples if fires(e, n) != (n == 0)]
             if bad:
                 r.bad("lzma2w|end-byte", "the end byte is written when read() returned %d (it must be written exactly when it returned 0: "
                       "a short read is not the end of the input)" % bad[0], pat.where(b, e.idx))
             else:
                 r.ok("evaluation", {"end byte": "exactly when n == 0 (10 sampled counts incl. 1, 65535, 65536)"})
-            if any(rd.idx in c.reachable_from(e.idx) for _ in (0,)):
+            if rd.idx in c.reachable_from(e.idx):
                 r.bad("lzma2w|read-after-end", "input is read again after the end byte", pat.where(b, e.idx))
         for cb in ctrls:
             v = tm.of_operand(cb.term.args[1])
